@@ -5,6 +5,7 @@ mod history;
 mod io;
 mod kdbx;
 mod keyop;
+mod merge;
 mod panicx;
 mod totp;
 mod rng;
@@ -56,6 +57,11 @@ impl Ctx {
         let s = serde_json::to_string(&case).unwrap();
         self.out.write_all(s.as_bytes()).unwrap();
         self.out.write_all(b"\n").unwrap();
+    }
+    /// a real call hung: what has been emitted so far (incl. the hanging case) is the result of this run
+    pub fn out_flush_and_exit(&mut self) -> ! {
+        self.out.flush().unwrap();
+        std::process::exit(0);
     }
     pub fn arg(&self, name: &str) -> Option<String> {
         let mut it = self.args.iter();
@@ -116,6 +122,7 @@ fn main() {
         "iowrite" => io::run_write(&mut ctx),
         "totp" => totp::run(&mut ctx),
         "key" => keyop::run(&mut ctx),
+        "merge" => merge::run(&mut ctx),
         "selftest" => ctx.emit(serde_json::json!({"op": "selftest", "real": {"vectors": []}})),
         _ => {
             eprintln!("unknown op {}", op);
